@@ -29,6 +29,7 @@ type PlanCase struct {
 // Realised is a plan case on real bytes.
 type Realised struct {
 	Tree    *Tree             // the log the tree head commits to
+	Size    int64             // the size of the tree head
 	Over    map[string][]byte // object path -> (uncompressed) content served in its place
 	GzRaw   map[string][]byte // gzip+file:// only: the file's raw bytes (a damaged gzip stream)
 	SCT     []byte
@@ -93,7 +94,7 @@ func otherLeaf(t *Tree, i int64, N int64, same func(a, b *Leaf) bool) *Leaf {
 
 // Realise turns a plan case into what the server serves.
 func (ld *LogData) Realise(c *PlanCase, r *prng) (*Realised, error) {
-	rl := &Realised{Tree: ld.treeOf(c.Log), Over: map[string][]byte{}, GzRaw: map[string][]byte{}}
+	rl := &Realised{Tree: ld.treeOf(c.Log), Size: c.Size, Over: map[string][]byte{}, GzRaw: map[string][]byte{}}
 	N := c.Size
 	if c.Log == "M" {
 		rl.Over = ld.misOverrides(N)
